@@ -180,7 +180,19 @@ func Handle(c *core.Check, st core.State) {
 	// 2. SetAttributeValue in a file
 	var fsrc []byte
 	if rec, p := core.Guard(func() {
+		// the body the attribute is written into varies with the vector: empty; loaded with an
+		// attribute x to overwrite; x created by renaming another attribute; x renamed away before
 		f := hclwrite.NewEmptyFile()
+		switch len(src) % 4 {
+		case 1:
+			f, _ = hclwrite.ParseConfig([]byte("w = 1 # c\nx = 0\n"), "base.hcl", hcl.InitialPos)
+		case 2:
+			f.Body().SetAttributeValue("w", cty.True)
+			f.Body().RenameAttribute("w", "x")
+		case 3:
+			f.Body().SetAttributeValue("x", cty.False)
+			f.Body().RenameAttribute("x", "w")
+		}
 		f.Body().SetAttributeValue("x", val)
 		fsrc = f.Bytes()
 	}); p {
